@@ -2,10 +2,9 @@ package govc
 
 import (
 	"fmt"
-	"math/big"
-	"sort"
 	"go/token"
 	"go/types"
+	"math/big"
 	"strings"
 
 	"golang.org/x/tools/go/ssa"
@@ -287,16 +286,9 @@ func (e *Enc) applySpec(fr *Frame, st *State, spec *FuncSpec, ci calleeInfo, arg
 		unsupported("%s: %v", spec.Name, err)
 	}
 	if spec.ModifiesAll {
-		// "modifies *": the callee may write any heap known so far (object type tags and the allocation order are
-		// kept: a callee cannot retype or deallocate an object)
+		// "modifies *": the callee may write any heap, including heaps no instruction has touched yet
 		mods = mods[:0]
-		for h := range e.hsorts {
-			if h == "ghost:objtype" || strings.HasPrefix(h, "lghost:") {
-				continue
-			}
-			mods = append(mods, h)
-		}
-		sort.Strings(mods)
+		e.havocAll(st)
 	}
 	for _, h := range mods {
 		e.ensureHeapKnown(h)
@@ -324,6 +316,12 @@ func (e *Enc) applySpec(fr *Frame, st *State, spec *FuncSpec, ci calleeInfo, arg
 			t = c.App(fmt.Sprintf("%s#%d", spec.Name, i), sortOf(rt), ufArgs...)
 		} else {
 			t = c.Fresh("r:"+shortFn(spec.Name), sortOf(rt))
+			// a slice result whose contract promises "off(result) == 0" is built with a literal zero offset, so that
+			// element terms are select(region, j) rather than select(region, off + j): quantifier patterns over
+			// interpreted bvadd make the solvers' instantiation unstable
+			if _, isSl := rt.Underlying().(*types.Slice); isSl && e.promisesZeroOffset(spec, ci.sig, i) {
+				t = e.mkSlice(e.slObj(t), e.bv64(0), e.slLen(t), e.slCap(t))
+			}
 		}
 		if wf := e.wellFormed(t, rt, st); !wf.IsTrue() {
 			e.assume(st, wf)
@@ -383,7 +381,7 @@ func (e *Enc) applySpec(fr *Frame, st *State, spec *FuncSpec, ci calleeInfo, arg
 		}
 	}
 	for _, en := range post {
-		if !e.active(en.Props) {
+		if !e.active(en.Props) || en.Local {
 			continue
 		}
 		t, err := envPost.EvalBool(en.Expr)
@@ -403,6 +401,38 @@ func (e *Enc) applySpec(fr *Frame, st *State, spec *FuncSpec, ci calleeInfo, arg
 		e.assume(st, t)
 	}
 	return packResults(results)
+}
+
+// promisesZeroOffset: the (active, exported) ensures of spec contain the top-level conjunct off(<result i>) == 0.
+func (e *Enc) promisesZeroOffset(spec *FuncSpec, sig *types.Signature, i int) bool {
+	rn := resultNames(spec, sig)
+	var name string
+	if i < len(rn) {
+		name = rn[i]
+	}
+	var hit func(x *SExpr) bool
+	hit = func(x *SExpr) bool {
+		if x == nil {
+			return false
+		}
+		if x.Kind == "binop" && x.Op == "&&" {
+			return hit(x.Args[0]) || hit(x.Args[1])
+		}
+		if x.Kind == "binop" && x.Op == "==" && len(x.Args) == 2 {
+			l, r := x.Args[0], x.Args[1]
+			if l.Kind == "call" && l.Name == "off" && len(l.Args) == 1 && l.Args[0].Kind == "ident" && r.Kind == "num" && r.Num.Sign() == 0 {
+				n := l.Args[0].Name
+				return n == name || n == fmt.Sprintf("$r%d", i) || (i == 0 && n == "$r")
+			}
+		}
+		return false
+	}
+	for _, en := range spec.Ensures {
+		if e.active(en.Props) && !en.Local && hit(en.Expr) {
+			return true
+		}
+	}
+	return false
 }
 
 func (e *Enc) ensureHeapKnown(h string) {
